@@ -5,15 +5,21 @@ From CDI Require Import Base SpecModel Doc Decode DecodeProofs Validate Validate
 Import ListNotations.
 Open Scope string_scope.
 
-Lemma should_accept_doc_iff d : should_accept_doc d = true <-> exists s, spec_of_doc d = Ok s /\ WF s.
+Lemma should_accept_doc_iff d :
+  should_accept_doc d = true <-> ~ HasDup d /\ exists s, spec_of_doc d = Ok s /\ WF s.
 Proof.
-  unfold should_accept_doc. destruct (spec_of_doc d) as [s| |]; split.
-  - intro H. exists s. split; [reflexivity|apply wf_b_iff; exact H].
-  - intros (s' & E & W). inversion E; subst. apply wf_b_iff. exact W.
-  - discriminate.
-  - intros (s' & E & _). discriminate.
-  - discriminate.
-  - intros (s' & E & _). discriminate.
+  unfold should_accept_doc. rewrite andb_true_iff, negb_true_iff, <- has_dup_iff.
+  assert ((match spec_of_doc d with Ok s => wf_b s | _ => false end) = true <-> exists s, spec_of_doc d = Ok s /\ WF s) as ->.
+  { destruct (spec_of_doc d) as [s| |]; split.
+    - intro H. exists s. split; [reflexivity|apply wf_b_iff; exact H].
+    - intros (s' & E & W). inversion E; subst. apply wf_b_iff. exact W.
+    - discriminate.
+    - intros (s' & E & _). discriminate.
+    - discriminate.
+    - intros (s' & E & _). discriminate. }
+  split; intros [H1 H2]; (split; [|exact H2]).
+  - rewrite H1. discriminate.
+  - destruct (has_dup d); [exfalso; apply H1; reflexivity|reflexivity].
 Qed.
 
 Lemma all_eq_in n l : all_eq n l = true <-> forall o, In o l -> o = n.
@@ -37,7 +43,7 @@ Qed.
 (* the oracle bit, in terms of the declarative predicate *)
 Theorem oracle05_doc_meaning d obs parsed :
   oracle05 (CDoc d obs parsed) = true ->
-  obs <> [] /\ forall o, In o obs -> o <> 2 /\ (o = 0 <-> exists s, spec_of_doc d = Ok s /\ WF s).
+  obs <> [] /\ forall o, In o obs -> o <> 2 /\ (o = 0 <-> ~ HasDup d /\ exists s, spec_of_doc d = Ok s /\ WF s).
 Proof.
   intro H. destruct (verdict_ok_meaning _ _ H) as [Hne Ho]. split; [exact Hne|].
   intros o Hin. destruct (Ho o Hin) as [H2 Hi]. split; [exact H2|]. rewrite Hi. apply should_accept_doc_iff.
@@ -71,10 +77,10 @@ Theorem corr_implies_oracle c : case_obs c <> [] -> corr05 c = true -> oracle05 
 Proof.
   destruct c as [d obs parsed | s obs]; cbn [case_obs corr05 oracle05]; intros Hne H.
   - apply andb_true_iff in H as [H _].
-    apply (verdict_ok_intro _ _ (rclass (accepts d)) Hne H).
-    + destruct (accepts_cases d) as [E|E]; rewrite E; discriminate.
-    + rewrite should_accept_doc_iff, <- accepts_iff_WF.
-      destruct (accepts_cases d) as [E|E]; rewrite E; cbn; split; congruence.
+    apply (verdict_ok_intro _ _ (rclass (accepts_strict d)) Hne H).
+    + destruct (accepts_strict_cases d) as [E|E]; rewrite E; discriminate.
+    + rewrite should_accept_doc_iff, <- accepts_strict_iff_WF.
+      destruct (accepts_strict_cases d) as [E|E]; rewrite E; cbn; split; congruence.
   - apply (verdict_ok_intro _ _ (rclass (validate_spec s)) Hne H).
     + pose proof (validate_total s). destruct (validate_spec s); cbn; congruence.
     + rewrite wf_b_iff, <- validate_iff_WF. pose proof (validate_total s).
